@@ -337,7 +337,7 @@ def run_history(ctx, case, cap, on_round=None):
     scripted = name in GP_ALGS or name in ("VOGP", "EpsilonPAL")
     t = 0
     t_start = time.time()
-    flags = {"nonuniform_across_objectives": False, "positional_shift": False}
+    flags = {"nonuniform_across_objectives": False, "positional_shift": False, "strong_premise": True}
     if name == "Auer":
         real_pu = alg.pareto_updating
 
@@ -394,6 +394,14 @@ def run_history(ctx, case, cap, on_round=None):
                     raise RuntimeError(f"driver answered {ans!r} to a containment query")
                 return {"status": "premise_failed", "alg": alg, "rounds": t, "adv": adv, "design": i,
                         "answer": ans}
+        if name == "Auer":
+            # the (stronger) premise of the Lean theorem `auer_final_accurate`: ‖c − μ‖_∞ ≤ min_d β_d, β > 0
+            rows, _ = auer_width_rows(alg, flags.get("_S_at_modeling", []))
+            for i in active:
+                r = alg.design_space.confidence_regions[i]
+                if i not in rows or ctx.ask("errw", core.qvec(np.asarray(r.center, dtype=float)),
+                                            core.qvec(rows[i]), core.qvec(Y[i])) != "1":
+                    flags["strong_premise"] = False
         if on_round is not None:
             on_round(alg, adv, before, active, t)
 
@@ -784,6 +792,8 @@ def run_case(ctx, case):
     okA, okB = parts[0] == "1", parts[1] == "1"
     detail = {"P": P, "rounds": res["rounds"], "witness_a": parts[2], "witness_b": parts[3],
               "alpha": [float(a) for a in alpha]}
+    if name == "Auer":
+        ctx.count("auer_theorem_premise_%s" % ("held" if res.get("flags", {}).get("strong_premise") else "failed"))
     if not okA:
         ctx.violation(f"acc-a:{name}", f"{name}: premise held in every round, the run terminated, but design "
                       f"{parts[2]} is outside P and no member of P weakly dominates it", case, kind="R", detail=detail)
@@ -794,7 +804,12 @@ def run_case(ctx, case):
         if name == "Auer":
             fl = {k: v for k, v in res.get("flags", {}).items() if not k.startswith("_")}
             detail["flags"] = fl
-            if fl.get("positional_shift") and not fl.get("nonuniform_across_objectives"):
+            if fl.get("strong_premise"):
+                key = "acc-b:Auer:theorem-premise-held"
+                what = ("Auer: even the premise of the Lean theorem auer_final_accurate (‖c−μ‖∞ ≤ min_d β_d, β > 0) held "
+                        f"in every round, yet P contains a design with gap > ε (pair i,j = {parts[3]}): the implementation "
+                        "does not follow the m/M rule with widths looked up by design")
+            elif fl.get("positional_shift") and not fl.get("nonuniform_across_objectives"):
                 key = "auer-widths-by-position"
                 what = ("Auer (use_empirical_beta): pareto_updating() reads beta_t by position in the set S that "
                         "discarding() has just shrunk, so designs are paired with other designs' widths; the truth stayed "
